@@ -1413,6 +1413,13 @@ pub fn run(ctx: &mut Ctx) {
     for t in ["{ f(a: {x: 1, x: 1}) }", "{ f(a: [{y: {x: 1, x: 2}}]) }", "{ f(a: {x: 1, y: 1}) }", "mutation { a }", "subscription { a }", "query { a } mutation M { a }", "{ f(l: [1]) f(l: [1, 2]) }", "{ f(o: {r: 1, r: 2}) }", "{ f(o: {r: 1, y: [{r: 1, r: 1}]}) }", "query($v: Int) { f(ll: [[$v]]) }", "query($v: Int) { f(o: {r: $v}) }", "query($v: Int) { f(o: {r: 1, d: $v}) }", "query($v: [Int]) { f(o: {r: 1, x: $v}) }"] {
         check_doc(ctx, &small, t, "regression");
     }
+    // a list literal given to a (non-list) custom scalar is opaque (fix <COMMIT> of value_of_correct_type)
+    let any = load("scalar Any type Query { f(a: Any!): Int g(a: Any): Int }");
+    for t in ["{ f(a: [null]) }", "{ f(a: [1, null]) }", "{ f(a: [[null], {x: [null]}]) }", "query($v: Int) { f(a: [$v]) }", "query($v: [Int!]) { g(a: [$v]) }",
+        "query($v: Int) { f(a: [{x: $v}, $v]) }", "{ f(a: {x: [null]}) }", "{ f(a: [{x: 1, x: 2}]) }", "{ f(a: [$u]) }", "query($v: Int) { f(a: [$v, $u]) }",
+        "{ f(a: null) }", "query($v: Int) { f(a: $v) }", "query($v: Any) { f(a: $v) }", "query($v: Any!) { f(a: $v) }", "{ g(a: [null]) }"] {
+        check_doc(ctx, &any, t, "regression-custom-scalar-list");
+    }
     corpus(ctx);
     stream_samevalue(ctx, &small);
     stream_shape(ctx);
